@@ -7,7 +7,8 @@
 //!   (c16-inv "qml" "Name" (objs ...))     header inventory of the real header vs the Lean model (Model.CxxEmit)   [model]
 //!   (c16-literals "s"...)                 every emitted spelling of the source strings is compiled AND RUN: the UTF-16
 //!                                         units of QStringLiteral(...) / the bytes of narrow literals = the source  [oracle]
-//!   (c16-lit "s")                         formatStringLiteral of the real code vs the Lean model                 [model]
+//!   (c16-lit "s")                         spelling of the source string in the real header vs Model.formatStringLiteral [model]
+//!   (c16-rejects "qml" "needle")          the document is refused with an error diagnostic containing the needle        [oracle]
 //!   (c16-metatypes "path")                helper: dumps the tweaked metatypes used by this stream (for tools/)
 use crate::docgen::Obj;
 use crate::env::{self, qml_string_literal, Mode};
@@ -1156,6 +1157,23 @@ fn fixed_strings() -> Vec<String> {
 /// well- and ill-formed C++ escape sequences
 /// numeric escapes whose value does not fit the element type are implementation-defined (g++ truncates with a
 /// warning); the specification calls them ill-formed and the generator does not produce them
+/// sample spellings in the style of the repaired printer (3-digit octal escapes); only an input of the spec validation
+fn octal_style_spelling(s: &str) -> String {
+    let mut out = String::new();
+    for c in s.chars() {
+        match c {
+            '"' => out.push_str("\\\""),
+            '\\' => out.push_str("\\\\"),
+            '\n' => out.push_str("\\n"),
+            '\r' => out.push_str("\\r"),
+            '\t' => out.push_str("\\t"),
+            c if (c as u32) < 0x20 || c as u32 == 0x7f => out.push_str(&format!("\\{:03o}", c as u32)),
+            c => out.push(c),
+        }
+    }
+    out
+}
+
 fn gen_spelling(rng: &mut Rng, narrow: bool) -> String {
     let max_unit = if narrow { 0x100 } else { 0x10000 };
     let mut out = String::new();
@@ -1172,9 +1190,15 @@ fn gen_spelling(rng: &mut Rng, narrow: bool) -> String {
             8 => out.push_str(*rng.pick(&["\\u12", "\\U0001f60", "\\ud800", "\\x", "\\udfff"])),
             9 => {
                 let s = gen_string(rng);
-                let d = format!("{s:?}");
-                out.push_str(&d[1..d.len() - 1]);
+                if rng.chance(1, 2) {
+                    out.push_str(&octal_style_spelling(&s));
+                } else {
+                    // the former printer (Rust Debug): `\\u{..}` forms must be ill-formed for the spec, too
+                    let d = format!("{s:?}");
+                    out.push_str(&d[1..d.len() - 1]);
+                }
             }
+            10 => out.push_str(&format!("\\{:03o}{}", rng.below(128), rng.below(10))),
             _ => out.push(char::from_u32(rng.range(0x20, 0x7e) as u32).filter(|c| *c != '"' && *c != '\\').unwrap_or('a')),
         }
     }
@@ -1290,6 +1314,8 @@ fn value_templates(rng: &mut Rng, lit: &dyn Fn(&mut Rng) -> (String, String)) ->
         ("windowTitle1", "le2.text".into(), Code::Expr(true, 0, vec![], vec![])),
         ("i", "Math.max(sb.value, 1)".into(), Code::Expr(true, 0, vec!["max"], vec![])),
         ("j", "Math.min(sb.value, sb2.value)".into(), Code::Expr(true, 0, vec!["min"], vec![])),
+        ("d", "ds.value % 2.0".into(), Code::Expr(true, 0, vec!["fmod"], vec![])),
+        ("d2", "Math.max(ds.value % v.d, 0.5)".into(), Code::Expr(true, 0, vec!["fmod", "max"], vec![])),
         ("p1", "sb.value".into(), Code::Expr(true, 0, vec![], vec![])),
         ("p11", "sb.value + 1".into(), Code::Expr(true, 0, vec![], vec![])),
         ("q0", "sb.value".into(), Code::Expr(true, 0, vec![], vec![])),
@@ -1523,7 +1549,11 @@ impl Stream for C16 {
         // validation of Spec.CxxLit against g++ (kind=spec): the compiler's reading of random spellings
         let nsp = if thorough { 12000 } else { 1500 };
         let mut rng = Rng::fork(seed, "c16-spelling", 0);
-        let base: Vec<String> = strings.iter().map(|s| { let d = format!("{s:?}"); d[1..d.len() - 1].to_owned() }).collect();
+        let base: Vec<String> = strings
+            .iter()
+            .enumerate()
+            .map(|(k, s)| if k % 2 == 0 { octal_style_spelling(s) } else { let d = format!("{s:?}"); d[1..d.len() - 1].to_owned() })
+            .collect();
         let nchunks = (base.len() + nsp) / 200;
         for b in 0..nchunks {
             let narrow = b % 3 == 2;
@@ -1596,6 +1626,18 @@ impl Stream for C16 {
                 let u16_ = args[0].as_atom() == Some("u16");
                 let sp: Vec<String> = args[1..].iter().map(|a| a.as_str().unwrap().to_owned()).collect();
                 self.gxx_spec(u16_, &sp)
+            }
+            "c16-rejects" => {
+                // (c16-rejects "qml" "needle"): the document is refused with a diagnostic containing the needle
+                let t = env::translate(&self.tm, args[0].as_str().unwrap(), "Rej", Mode::Generate);
+                let needle = args[1].as_str().unwrap();
+                if t.accepted() {
+                    node("fail", vec![st("document is accepted")])
+                } else if t.diags.iter().any(|d| d.is_error && d.message.contains(needle)) {
+                    node("ok", vec![atom("rejected")])
+                } else {
+                    node("fail", vec![st(format!("rejected, but no diagnostic mentions `{needle}`"))])
+                }
             }
             "c16-diag" => {
                 let t = env::translate(&self.tm, args[0].as_str().unwrap(), "Diag", Mode::Generate);
